@@ -197,6 +197,20 @@ def check_sigapi(case):
             d = dd
             cls.append("nt:solved-key")
     key = d.to_bytes(32, "big")
+    if case["k"] % 3 == 0:
+        # history: the same key signs the same bytes in the OTHER mode / with another flag first (its own nonce), and that
+        # signature is verified; nothing of those calls may carry over into the call under test
+        oflag = ((eff_flag & 0x7F) % 3 + 1) | (0 if eff_flag & 0x80 else 0x80)
+        real = em.secrets
+        em.secrets = rng.ScriptedSecrets([(k * 7 + 11) % N or 2])
+        try:
+            o = attempt(bits.sig, key, msg + (b"" if preimage else oflag.to_bytes(4, "little")), msg_preimage=not preimage,
+                        **({} if not preimage else {"sighash_flag": oflag}))
+        finally:
+            em.secrets = real
+        if isinstance(o, (bytes, bytearray)):
+            attempt(bits.sig_verify, bytes(o), ec.sec1_encode(ec.pub(d), True), msg, msg_preimage=not preimage)
+        cls.append("nt:after-same-key-and-bytes-in-other-mode")
     stub = rng.ScriptedSecrets([k])
     saved = em.secrets
     em.secrets = stub
@@ -390,7 +404,7 @@ def targets(tier):
                          "nt:s-negated || rng-not-consulted", "nt:r-short || rng-not-consulted", "nt:s-short || rng-not-consulted", "nt:r-pad || rng-not-consulted",
                          "nt:s-short-pad || rng-not-consulted", "nt:pair-key", "nt:pair-message"]),
         Target("sig-api", check_sigapi, strategy=lambda tier: sigapi_cases(), budget={"quick": 500, "thorough": 10000},
-               required=["nt:preimage", "nt:flag-anyonecanpay", "nt:s-short-pad", "nt:r-short", "nt:solved-key", "nt:msg-len-32/preimage", "nt:msg-len-32/plain", "nt:msg-len-64/preimage", "nt:msg-len-64/plain"]),
+               required=["nt:preimage", "nt:flag-anyonecanpay", "nt:s-short-pad", "nt:r-short", "nt:solved-key", "nt:msg-len-32/preimage", "nt:msg-len-32/plain", "nt:msg-len-64/preimage", "nt:msg-len-64/plain", "nt:after-same-key-and-bytes-in-other-mode"]),
         Target("der-codec", check_der, enumerate_=enum_der, required=["nt:s-short-pad", "nt:r-short-pad", "nt:r-pad"]),
         Target("small-curve", check_small, enumerate_=enum_small, exhaustive=True),
     ]
